@@ -227,3 +227,18 @@ pub fn fmt_result_dbg<R: pest::RuleType>(r: Result<pest::iterators::Pairs<'_, R>
         }
     }
 }
+
+/// request: text in hex; reply `SOME <hex>` / `NONE` (through the cfg-guarded hook)
+#[cfg(pest_parser_pest_verif)]
+pub fn unescape_cmd(line: &str) -> String {
+    let t = unhex(line.trim());
+    guarded(move || match pest_meta::parser::verif_unescape(&t) {
+        Some(s) => format!("SOME {}", hex(&s)),
+        None => "NONE".to_string(),
+    })
+    .unwrap_or_else(|m| format!("PANIC {}", m.replace('\n', " ")))
+}
+#[cfg(not(pest_parser_pest_verif))]
+pub fn unescape_cmd(_line: &str) -> String {
+    "NOHOOK".into()
+}
